@@ -62,6 +62,27 @@ AREAS = [
              text='Definition src_checkable_is_state_ok (is_host : bool) (state : Z) : bool :=\n'
                   '  if is_host then src_host_is_state_ok state else src_service_is_state_ok state.\n',
              deps=['host_is_state_ok', 'service_is_state_ok']),
+        # ---- C01 stretch: regions of Checkable::ProcessCheckResult (lib/icinga/checkable-check.cpp) as state-passing functions
+        dict(name='pcr_state_type_attempt', func='Checkable::ProcessCheckResult', file='lib/icinga/checkable-check.cpp', props=['C01'],
+             region=(r'long\s+attempt\s*=\s*1\s*;', r'if\s*\(\s*!reachable\s*\)'), outputs=['attempt', 'recovery'],
+             inputs=[('is_host', 'bool'), ('old_state', 'Z'), ('old_state_type', 'Z'), ('old_attempt', 'Z'), ('new_state', 'Z'),
+                     ('max_attempts', 'Z'), ('recovery0', 'bool'), ('state_type0', 'Z')], ret='void', rcoq='Z * bool * Z', dummy='(0, false, 0)',
+             locals={'old_state': Zb('old_state'), 'old_stateType': Zb('old_state_type'), 'old_attempt': Zb('old_attempt'), 'recovery': Bb('recovery0')},
+             state=[('$state_type', 'state_type0', 'Z')], setters={'SetStateType': '$state_type'}, getters={'GetStateType()': '$state_type'},
+             skip=[r'^Log\(', r'^ObjectLock ', r'^ResetNotificationNumbers\(\)$', r'^SaveLastState\('],
+             bind={'cr->GetState()': Zb('new_state'), 'GetMaxCheckAttempts()': Zb('max_attempts')},
+             fns={'IsStateOK': ('src_checkable_is_state_ok is_host', ['Z'], 'bool')}),
+        dict(name='pcr_state_change', func='Checkable::ProcessCheckResult', file='lib/icinga/checkable-check.cpp', props=['C01'],
+             region=(r'bool\s+stateChange\s*;', r'SetPreviousStateChange\s*\('), outputs=['stateChange'],
+             inputs=[('is_service', 'bool'), ('old_state', 'Z'), ('new_state', 'Z')], ret='void', rcoq='bool',
+             locals={'old_state': Zb('old_state'), 'new_state': Zb('new_state')},
+             bind={'checkableType==CheckableService': Bb('is_service')},
+             fns={'Host::CalculateState': ('src_host_calculate_state', ['Z'], 'Z')}),
+        dict(name='pcr_hard_change', func='Checkable::ProcessCheckResult', file='lib/icinga/checkable-check.cpp', props=['C01'],
+             region=(r'bool\s+hardChange\s*=', r'bool\s+is_volatile\s*='), outputs=['hardChange'],
+             inputs=[('state_change', 'bool'), ('old_state_type', 'Z'), ('state_type', 'Z')], ret='void', rcoq='bool',
+             locals={'stateChange': Bb('state_change'), 'old_stateType': Zb('old_state_type')},
+             bind={'GetStateType()': Zb('state_type')}),
         # ---- C05
         dt('downtime_is_in_effect', 'Downtime::IsInEffect', ['C05', 'C02']),
         dt('downtime_is_triggered', 'Downtime::IsTriggered', ['C05']),
